@@ -195,8 +195,21 @@ impl AnchorContext {
             }
         }
 
-        let entry = self.column_names.entry(cid);
-        Some(entry.or_insert_with(|| self.col_name.gen()))
+        if !self.column_names.contains_key(&cid) {
+            // a generated name must not capture a column the user can see: skip names
+            // of table columns and names that are already in use
+            let name = loop {
+                let candidate = self.col_name.gen();
+                let is_table_column = self.column_decls.values().any(|d| {
+                    matches!(d, ColumnDecl::RelationColumn(_, _, RelationColumn::Single(Some(n))) if *n == candidate)
+                });
+                if !is_table_column && !self.column_names.values().any(|n| *n == candidate) {
+                    break candidate;
+                }
+            };
+            self.column_names.insert(cid, name);
+        }
+        self.column_names.get(&cid)
     }
 
     pub(super) fn load_names(
